@@ -111,6 +111,7 @@ def check(ctx):
     check_merge_tables_agree(ctx)
     check_dataset_keys_as_given(ctx)
     check_count_thresholds(ctx)
+    check_row_per_leaf(ctx)
     # what is summed over the leaves becomes a mean and a variance by the
     # textbook formulas (rule of C11)
     from .C11 import check_moments
@@ -1184,3 +1185,62 @@ def check_chunk_row_positions(ctx, rule='R-SPACE/chunk-row-positions'):
     if n == 0:
         raise AnalysisError('_process_chunk: the search of the cluster '
                             'labels was not found')
+
+
+def check_row_per_leaf(ctx, rule='R-COVER/row-per-leaf'):
+    """the statistics file has one row per leaf of the taxonomy it is
+    accompanied by -- also for a leaf without cells in this file (its row
+    is the zero element of the additive merge, and every later stage looks
+    clusters up through cluster_to_row).  The list the output rows are
+    numbered from is all leaves of the tree: it derives from
+    `leaf_to_cells` / `all_leaves` and no comprehension with an `if`
+    clause (and no other selection) stands in between."""
+    db = ctx.db
+    n = 0
+    for q in ('diff_exp.precompute_from_anndata:'
+              'precompute_summary_stats_from_h5ad_and_tree',
+              'diff_exp.precompute_from_anndata:'
+              'precompute_summary_stats_from_h5ad_list_and_tree'):
+        fi = db.fn(q)
+        ctx.touch(fi)
+        cfg = cfg_of(fi)
+        rd = rd_of(fi)
+        ex = Expander(fi)
+        for node in cfg.nodes:
+            if node.id not in rd.live or node.kind != 'stmt' \
+                    or not isinstance(node.ast, ast.Assign):
+                continue
+            v = node.ast.value
+            if not (isinstance(v, ast.DictComp) and len(
+                    v.generators) == 1 and isinstance(
+                        v.generators[0].iter, ast.Call)
+                    and getattr(v.generators[0].iter.func, 'id', None)
+                    == 'enumerate'):
+                continue
+            tgt = node.ast.targets[0]
+            if not (isinstance(tgt, ast.Name) and 'row' in tgt.id):
+                continue
+            n += 1
+            src = v.generators[0].iter.args[0]
+            t = ex.expand(src, node.id)
+            filtered = [x for x in T.subterms(t)
+                        if isinstance(x, tuple) and x and x[0] == 'comp'
+                        and any(g[2] for g in x[3])]
+            from_tree = any(isinstance(x, tuple) and x and x[0] == 'attr'
+                            and x[2] in ('leaf_to_cells', 'all_leaves')
+                            for x in T.subterms(t))
+            sliced = [x for x in T.subterms(t)
+                      if isinstance(x, tuple) and x and x[0] == 'sub'
+                      and isinstance(x[2], tuple) and x[2]
+                      and x[2][0] == 'slice']
+            ok = from_tree and not filtered and not sliced \
+                and not v.generators[0].ifs
+            ctx.ob(rule, f'{fi.name}:{tgt.id}', fi.loc(node.ast), ok,
+                   'output rows are numbered from all leaves of the tree'
+                   if ok else
+                   f'`{tgt.id}` is numbered from {fmt_term(t)[:80]}: '
+                   'not every leaf of the taxonomy gets a row, while the '
+                   'taxonomy stored with the statistics still lists it')
+    if n < 2:
+        raise AnalysisError(f'only {n} row-numbering tables found in the '
+                            'statistics front ends')
